@@ -65,3 +65,40 @@ Definition chk_pyeq (c : pyeq_case) : Z :=
   | Some r => if (if r then 1 else 0) =? live then 0 else 3
   | None => 9
   end.
+
+(* history (strengthening round 2; Model/C11History.v): a heap of ExternalModule object states, a history of mutations and
+   exports run in ONE interpreter, what every observing step returned (None: it raised; an export returns the ext_modules of
+   its package, a direct call of export_external_module the one declaration), and the object states the driver read off the
+   live objects at every observing step.
+     1  a returned package's declarations are not those of the objects as they were at that moment (the SPEC, decls_current_b)
+     2  the specification holds but the model differs: the live objects are not in the state the model's mutations give, the
+        number of observations differs, or run_hist decl_fresh (order of the declarations, refusals) differs *)
+Require Import Hdl21.Model.C11History.
+
+Definition eport_eqb (a b : eport) : bool :=
+  String.eqb (ep_name a) (ep_name b) && (ep_width a =? ep_width b) && String.eqb (ep_dir a) (ep_dir b).
+Definition eobj_eqb (a b : eobj) : bool :=
+  String.eqb (eo_domain a) (eo_domain b) && String.eqb (eo_name a) (eo_name b) && list_eqb eport_eqb (eo_ports a) (eo_ports b) &&
+  String.eqb (eo_spicetype a) (eo_spicetype b).
+Definition oret_eqb (a b : option (list c11ext)) : bool :=
+  match a, b with
+  | Some x, Some y => list_eqb c11ext_eqb x y
+  | None, None => true
+  | _, _ => false
+  end.
+
+Definition hist_case := (heap * list hop * list (option (list c11ext)) * list heap)%type.
+
+Fixpoint all_current (seen : list (heap * hop)) (rets : list (option (list c11ext))) : bool :=
+  match seen, rets with
+  | (hp, op) :: s', r :: r' => step_current hp op r && all_current s' r'
+  | _, _ => true
+  end.
+
+Definition chk_hist (c : hist_case) : Z :=
+  let '(hp, ops, rets, live) := c in
+  let seen := heaps_seen hp ops in
+  if negb (all_current seen rets) then 1 else
+  if negb (Nat.eqb (List.length seen) (List.length rets)) then 2 else
+  if negb (list_eqb (list_eqb eobj_eqb) (map fst seen) live) then 2 else
+  if list_eqb oret_eqb (run_hist unit decl_fresh hp tt ops) rets then 0 else 2.
